@@ -160,4 +160,24 @@ theorem sized_lru_operations_are_single_critical_sections :
            "lrucache/capacity:capacityLRU.Remove", "lrucache/capacity:capacityLRU.Keys"],
       (n, true) ∈ Facts.singleCriticalSection := Facts.sized_lru_sections
 
+/-- the tie by translation for `SizeInBytesContained`: every statement of the CURRENT source that changes
+    `currentCapacityInBytes` (`addNew`, `removeElement`, `adjustSize`) is translated on every run and is the update the model
+    performs — insertion adds the declared size, eviction and removal subtract the size stored with the entry, an overwrite
+    moves the counter by the difference -/
+theorem source_byte_counter_updates_are_the_models :
+    (∀ (c : LRU.Cap) (k v : Bytes) (size : Int),
+        (c.addNew k v size).bytes = Gen.lruBytesAfterAdd (c_currentCapacityInBytes := c.bytes) (sizeInBytes := size)) ∧
+    (∀ (c : LRU.Cap) (e : LRU.Entry), c.entries.getLast? = some e →
+        c.removeOldest.1.bytes = Gen.lruBytesAfterRemove (c_currentCapacityInBytes := c.bytes) (kv_size := e.size)) ∧
+    (∀ (c : LRU.Cap) (k : Bytes) (e : LRU.Entry), c.find k = some e →
+        (c.remove k).1.bytes = Gen.lruBytesAfterRemove (c_currentCapacityInBytes := c.bytes) (kv_size := e.size)) ∧
+    (∀ bytes size old : Int,
+        bytes + (size - old) = Gen.lruBytesAfterResize (c_currentCapacityInBytes := bytes) (v_size := old) (sizeInBytes := size)) ∧
+    Gen.lruBytesAfterAdd_leaves = ["c.currentCapacityInBytes : Int", "sizeInBytes : Int"] ∧
+    Gen.lruBytesAfterRemove_leaves = ["c.currentCapacityInBytes : Int", "kv.size : Int"] ∧
+    Gen.lruBytesAfterResize_leaves = ["c.currentCapacityInBytes : Int", "sizeInBytes : Int", "v.size : Int"] :=
+  ⟨GenProofs.lruBytes_addNew, GenProofs.lruBytes_removeOldest, GenProofs.lruBytes_remove,
+   fun b s o => (GenProofs.lruBytes_update_eq_source b s o).2,
+   GenProofs.lruBytes_leaves.1, GenProofs.lruBytes_leaves.2.1, GenProofs.lruBytes_leaves.2.2⟩
+
 end SV.Props.C15
